@@ -1,5 +1,6 @@
 // C10 harness: pipes end-to-end on an in-process server. Scenarios (sources, pipes with source condition
-// and filter, waves of writes, create/delete mid-history, clean restarts, two first writers whose
+// and filter, waves of writes, create/delete mid-history, delete + re-creation under the same name, requests
+// refused half-way, clean restarts, two first writers whose
 // notifications are inverted with the partition schedule hook, worker idle time-out with a re-arm)
 // are generated from one PRNG, executed against the real server, and for every (pipe, source) pair the
 // destination events carrying that source's provenance are recorded as a C10K.case. The oracle O
@@ -11,6 +12,7 @@ import (
 	"fmt"
 	"io"
 	"os"
+	"path"
 	"reflect"
 	"runtime"
 	"strconv"
@@ -28,6 +30,7 @@ import (
 	"github.com/logrange/logrange/pkg/partition"
 	"github.com/logrange/range/pkg/records/chunk/chunkfs"
 	"github.com/logrange/range/pkg/records/journal"
+	"github.com/logrange/range/pkg/utils/fileutil"
 	. "verifharness/common"
 )
 
@@ -43,6 +46,10 @@ type Ev struct {
 type Batch struct {
 	Src int  `json:"s"`
 	Evs []Ev `json:"e"`
+	// Refused > 0: the request carries, behind Evs, one event bigger than the server's MaxRecordSize and Refused-1
+	// more ordinary events: the server stores Evs, refuses the request (Write returns an error) and stores nothing
+	// of what follows. Evs is what the source partition holds afterwards.
+	Refused int `json:"refused,omitempty"`
 }
 
 type PipeDef struct {
@@ -53,6 +60,11 @@ type PipeDef struct {
 	Match []bool `json:"match"`
 	// FKind: "" accepts everything, "K": msg contains "K", "E": fields:env = "x" (env is also a tag of every source)
 	FKind string `json:"fkind"`
+	// Epoch > 0: this pipe is created under the SAME name as Pipes[Epoch-1], after that one was deleted
+	Epoch int `json:"epoch,omitempty"`
+	// NameKind: shape of the name ("" plain p<n>; others contain characters the pipe's state-file name escapes or
+	// the grammar allows besides letters and digits), see pipeNameOf
+	NameKind string `json:"nk,omitempty"`
 }
 
 type Step struct {
@@ -69,7 +81,8 @@ type Step struct {
 
 type Scenario struct {
 	Chunk   int64         `json:"chunk"`
-	Sources [][][2]string `json:"sources"` // tag pairs sorted by key
+	MaxRec  int64         `json:"maxrec,omitempty"` // MaxRecordSize of the scenario's server (0: default)
+	Sources [][][2]string `json:"sources"`          // tag pairs sorted by key
 	Pipes   []PipeDef     `json:"pipes"`
 	Steps   []Step        `json:"steps"`
 	Stream  string        `json:"stream"`
@@ -157,6 +170,30 @@ type DEv struct {
 
 func gDEvent(e DEv) string {
 	return fmt.Sprintf("{| d_ts := %s; d_msg := %s; d_flds := %s |}", GZ(e.Ts), GStr(e.Msg), gPairs(e.Flds))
+}
+
+// writePartial sends one request: b.Evs, then (b.Refused > 0) an oversized event and b.Refused-1 ordinary ones. With
+// Refused > 0 the server must refuse the request; a nil error is then reported as a harness error.
+func writePartial(srv *Server, tags string, b []Ev, refused int, maxRec int64) error {
+	if refused <= 0 {
+		return writeBatch(srv, tags, b)
+	}
+	if maxRec <= 0 {
+		return fmt.Errorf("a refused request needs a scenario with maxrec")
+	}
+	evs := append([]Ev{}, b...)
+	last := int64(0)
+	if len(b) > 0 {
+		last = b[len(b)-1].Ts
+	}
+	evs = append(evs, Ev{Ts: last, Msg: strings.Repeat("B", int(maxRec)+50)})
+	for i := 1; i < refused; i++ {
+		evs = append(evs, Ev{Ts: last, Msg: fmt.Sprintf("never%d", i)})
+	}
+	if err := writeBatch(srv, tags, evs); err == nil {
+		return fmt.Errorf("a request with a %d-byte record was accepted with MaxRecordSize %d", maxRec+50, maxRec)
+	}
+	return nil
 }
 
 func writeBatch(srv *Server, tags string, evs []Ev) error {
@@ -278,6 +315,14 @@ type pipeRun struct {
 	dstAtDel int        // destination size when the pipe was deleted
 	postDel  bool       // something matching was written after deletion
 	nontriv  bool
+	// epochs of one name: prev = the deleted pipe this one re-creates; base = per source, how many events of it the
+	// destination held when this pipe was created; a pipe that was re-created is superseded: its observation is
+	// frozen (what the destination held, per source, right before the re-creation)
+	barAt      int64 // the harness's barrier counter when the pipe was created
+	prev       *pipeRun
+	base       []int
+	superseded bool
+	frozen     [][]DEv
 }
 
 type runner struct {
@@ -522,7 +567,7 @@ func (r *runner) ensureSrc(s int) error {
 
 func (r *runner) start() error {
 	var err error
-	r.srv, err = StartServer(ServerOpts{Dir: r.dir, MaxChunkSize: r.sc.Chunk, WriteFlushMs: longFlushMs, NoRPC: true})
+	r.srv, err = StartServer(ServerOpts{Dir: r.dir, MaxChunkSize: r.sc.Chunk, MaxRecordSize: r.sc.MaxRec, WriteFlushMs: longFlushMs, NoRPC: true})
 	if err == nil {
 		// chunk writers keep their two files open until they were idle this long, also after the server was stopped
 		// (default 30 s: ~10000 descriptors in a thorough run). The idle timer only runs while nothing is unflushed,
@@ -558,7 +603,7 @@ func (r *runner) run() error {
 	r.flushed = make([]int, len(sc.Sources))
 	for _, pd := range sc.Pipes {
 		r.pipes = append(r.pipes, &pipeRun{def: pd, pre: make([]int, len(sc.Sources)), preFl: make([]int, len(sc.Sources)), ops: make([][]string, len(sc.Sources)),
-			seen: make([]bool, len(sc.Sources)), raceLost: make([][]Ev, len(sc.Sources)), stale: make([][]Ev, len(sc.Sources))})
+			base: make([]int, len(sc.Sources)), seen: make([]bool, len(sc.Sources)), raceLost: make([][]Ev, len(sc.Sources)), stale: make([][]Ev, len(sc.Sources))})
 	}
 	for si, st := range sc.Steps {
 		what := fmt.Sprintf("step %d (%s)", si, st.Kind)
@@ -568,6 +613,12 @@ func (r *runner) run() error {
 				return err
 			}
 			p := r.pipes[st.Pipe]
+			if p.def.Epoch > 0 {
+				// a pipe of this name existed and was deleted: its observation ends here
+				if err := r.supersede(r.pipes[p.def.Epoch-1], p); err != nil {
+					return fmt.Errorf("%s: %v", what, err)
+				}
+			}
 			q := "CREATE PIPE " + p.def.Name
 			if p.def.From != "" {
 				q += " FROM " + p.def.From
@@ -579,13 +630,37 @@ func (r *runner) run() error {
 				return fmt.Errorf("%s: %v", q, err)
 			}
 			p.created = true
+			p.barAt = r.barTs
 			copy(p.pre, r.counts())
 			copy(p.preFl, r.flushed)
 		case "delete":
 			p := r.pipes[st.Pipe]
+			for s := range sc.Sources {
+				// a pipe whose worker copied something has saved its positions: the file the harness is going to watch exists
+				if p.def.Match[s] && p.seen[s] && r.viol == nil {
+					if _, err := os.Stat(stateFile(r.dir, p.def.Name)); err != nil {
+						return fmt.Errorf("%s: pipe %s copied from source %d, but its saved positions are not in %s", what, p.def.Name, s, stateFile(r.dir, p.def.Name))
+					}
+					break
+				}
+			}
+			// A pipe with an empty source condition also copies the harness's sentinel events (partition barrier=b), and
+			// nothing above waits for that worker. DELETE PIPE between its journal write and its saveState would let it
+			// save the positions AFTER ppipe.delete removed the file (saveState does not look at pp.deleted), and a pipe
+			// created again under the name would load them: the pipe is deleted when this worker, too, has saved.
+			if p.def.From == "" && r.barTs > p.barAt && r.barSrc != "" {
+				end, _ := endPos(r.srv, r.barSrc)
+				WaitFor(deadline, func() bool {
+					pos, _, _, ok := r.srv.Pipes.VC10PipeState(p.def.Name, r.barSrc)
+					return ok && pos == end
+				})
+			}
 			if _, err := r.srv.Exec("DELETE PIPE " + p.def.Name); err != nil {
 				return err
 			}
+			// DeletePipe removes the saved positions of the name in a goroutine of its own (go p.delete()); a
+			// CREATE PIPE of the same name that overtakes it would load them
+			r.waitStateFileGone(p.def.Name)
 			r.syncDst()
 			d, err := readDst(r.srv, p.def.Name)
 			if err != nil {
@@ -622,16 +697,19 @@ func (r *runner) run() error {
 			}
 		case "wave":
 			newBySrc := map[int][]Ev{}
-			bySrc := map[int][][]Ev{}
+			bySrc := map[int][]Batch{}
 			var order []int
 			for _, b := range st.Batches {
 				if err := r.ensureSrc(b.Src); err != nil {
 					return err
 				}
+				if len(b.Evs) == 0 {
+					return fmt.Errorf("%s: a batch that stores nothing", what)
+				}
 				if _, ok := bySrc[b.Src]; !ok {
 					order = append(order, b.Src)
 				}
-				bySrc[b.Src] = append(bySrc[b.Src], b.Evs)
+				bySrc[b.Src] = append(bySrc[b.Src], b)
 				newBySrc[b.Src] = append(newBySrc[b.Src], b.Evs...)
 			}
 			if st.NoSync {
@@ -639,11 +717,11 @@ func (r *runner) run() error {
 					return fmt.Errorf("%s: unflushed wave with a live pipe", what)
 				}
 				for _, s := range order {
-					for _, evs := range bySrc[s] {
-						if err := writeBatch(r.srv, tagLine(sc.Sources[s]), evs); err != nil {
+					for _, b := range bySrc[s] {
+						if err := writePartial(r.srv, tagLine(sc.Sources[s]), b.Evs, b.Refused, sc.MaxRec); err != nil {
 							return err
 						}
-						r.written[s] = append(r.written[s], evs...)
+						r.written[s] = append(r.written[s], b.Evs...)
 					}
 				}
 				break
@@ -667,27 +745,32 @@ func (r *runner) run() error {
 			}
 			var wg sync.WaitGroup
 			errs := make([]error, len(order))
+			srcDone := map[int]chan struct{}{}
+			for _, s := range order {
+				srcDone[s] = make(chan struct{})
+			}
 			for k, s := range order {
 				wg.Add(1)
 				go func(k, s int) {
 					defer wg.Done()
+					defer close(srcDone[s])
 					tl := tagLine(sc.Sources[s])
 					if st.Par {
 						var wg2 sync.WaitGroup
-						for _, evs := range bySrc[s] {
+						for _, b := range bySrc[s] {
 							wg2.Add(1)
-							go func(evs []Ev) {
+							go func(b Batch) {
 								defer wg2.Done()
-								if e := writeBatch(r.srv, tl, evs); e != nil {
+								if e := writePartial(r.srv, tl, b.Evs, b.Refused, sc.MaxRec); e != nil {
 									errs[k] = e
 								}
-							}(evs)
+							}(b)
 						}
 						wg2.Wait()
 						return
 					}
-					for _, evs := range bySrc[s] {
-						if e := writeBatch(r.srv, tl, evs); e != nil {
+					for _, b := range bySrc[s] {
+						if e := writePartial(r.srv, tl, b.Evs, b.Refused, sc.MaxRec); e != nil {
 							errs[k] = e
 							return
 						}
@@ -695,16 +778,41 @@ func (r *runner) run() error {
 				}(k, s)
 			}
 			if st.FlushFirst {
+				unnotified := -1
+			arrivals:
 				for _, s := range order {
 					g := gs[s]
 					n := cap(g.arrived)
 					for i := 0; i < n; i++ {
 						select {
 						case <-g.arrived:
+						case <-srcDone[s]:
+							// every writer of this source has returned, and fewer than expected passed the point where
+							// Service.Write sends its WriteEvent (a held writer cannot return)
+							select {
+							case <-g.arrived:
+							default:
+								unnotified = s
+								break arrivals
+							}
 						case <-time.After(deadline):
 							return fmt.Errorf("%s: a writer did not reach the schedule point", what)
 						}
 					}
+				}
+				if unnotified >= 0 {
+					for _, s := range order {
+						close(gs[s].release)
+						r.disarm(s)
+					}
+					wg.Wait()
+					for _, e := range errs {
+						if e != nil {
+							return e
+						}
+					}
+					r.fail("pipe-write-not-notified", fmt.Sprintf("%s: a request to source %d (%s) stored events and returned without sending a WriteEvent: %s", what, unnotified, tagLine(sc.Sources[unnotified]), describeBatches(bySrc[unnotified])))
+					return errVerdict
 				}
 				// with sequential batches only the first writer of a source is held; its followers write after the
 				// release, their data is made readable by the second Sync below (all workers parked by then)
@@ -732,7 +840,7 @@ func (r *runner) run() error {
 						continue
 					}
 					if !r.waitParked(s, h0[s], starts[s]) {
-						r.fail("pipe-worker-not-started", fmt.Sprintf("%s: %d worker(s) expected to start for source %d did not reach their wait", what, starts[s], s))
+						r.fail("pipe-worker-not-started", fmt.Sprintf("%s: %d worker(s) expected to start for source %d (%s) did not reach their wait after %s", what, starts[s], s, tagLine(sc.Sources[s]), describeBatches(bySrc[s])))
 					}
 				}
 				for _, s := range order {
@@ -756,7 +864,7 @@ func (r *runner) run() error {
 				return err
 			}
 			for _, p := range r.pipes {
-				if !p.created {
+				if !p.created || p.superseded {
 					continue
 				}
 				for s, evs := range newBySrc {
@@ -869,7 +977,7 @@ func (r *runner) run() error {
 			r.written[s] = append(append(r.written[s], b1.Evs...), b2.Evs...)
 			r.flushed[s] = len(r.written[s])
 			for _, p := range r.pipes {
-				if !p.created || !p.def.Match[s] {
+				if !p.created || p.superseded || !p.def.Match[s] {
 					continue
 				}
 				if p.deleted {
@@ -957,7 +1065,7 @@ func (r *runner) run() error {
 			})
 			WaitFor(deadline, func() bool { return hitCount(id) >= h0+live+1 })
 			for _, p := range r.pipes {
-				if !p.created || !p.def.Match[s] || p == np {
+				if !p.created || p.superseded || !p.def.Match[s] || p == np {
 					continue
 				}
 				if p.deleted {
@@ -999,7 +1107,7 @@ func (r *runner) run() error {
 				return err
 			}
 			for _, p := range r.pipes {
-				if !p.created || !p.def.Match[s] {
+				if !p.created || p.superseded || !p.def.Match[s] {
 					continue
 				}
 				if p.deleted {
@@ -1018,6 +1126,107 @@ func (r *runner) run() error {
 		}
 	}
 	return nil
+}
+
+// goroutineIn: does some goroutine of the process have a frame of the function fn (as written in a goroutine dump)?
+func goroutineIn(fn string) bool {
+	buf := make([]byte, 4<<20)
+	n := runtime.Stack(buf, true)
+	return strings.Contains(string(buf[:n]), fn)
+}
+
+func stateFile(dir, name string) string {
+	return path.Join(dir, "pipes", "pipe"+fileutil.EscapeToFileName(name)+".dat")
+}
+
+// waitStateFileGone: after DELETE PIPE returned, wait until the file with the pipe's saved positions is gone, or
+// until no goroutine started by Service.DeletePipe (`go p.delete()`: its dump entry ends with "created by
+// ...pipe.(*Service).DeletePipe" from the go statement to its exit, whatever the compiler calls its entry function)
+// is left that could still remove it (then it stays: the consequences are for the oracle to see)
+func (r *runner) waitStateFileGone(name string) {
+	fn := stateFile(r.dir, name)
+	WaitFor(deadline, func() bool {
+		if _, err := os.Stat(fn); err != nil {
+			return true
+		}
+		return !goroutineIn("pipe.(*Service).DeletePipe")
+	})
+}
+
+func describeBatches(bs []Batch) string {
+	var sb strings.Builder
+	for i, b := range bs {
+		if i > 0 {
+			sb.WriteString("; ")
+		}
+		fmt.Fprintf(&sb, "a request of %d events", len(b.Evs))
+		if b.Refused > 0 {
+			fmt.Fprintf(&sb, " followed by a record bigger than MaxRecordSize (refused after storing the %d)", len(b.Evs))
+		}
+	}
+	return sb.String()
+}
+
+// attribute sorts destination events by the source whose tags they carry as provenance suffix (every source has a
+// unique sid tag)
+func (r *runner) attribute(p *pipeRun, dst []DEv) [][]DEv {
+	per := make([][]DEv, len(r.sc.Sources))
+	for _, e := range dst {
+		found := -1
+		for s, tg := range r.sc.Sources {
+			if hasSuffix(e.Flds, tg) {
+				found = s
+			}
+		}
+		if found < 0 {
+			r.fail("pipe-unattributed-event", fmt.Sprintf("pipe %s: destination event %v carries no source's tags", p.def.Name, e))
+			continue
+		}
+		per[found] = append(per[found], e)
+	}
+	return per
+}
+
+// supersede: the deleted pipe prev is about to be created again under its name (as p): its observation is what the
+// destination holds now; the new pipe's starts behind it
+func (r *runner) supersede(prev, p *pipeRun) error {
+	if !prev.created || !prev.deleted || prev.superseded || prev.def.Name != p.def.Name {
+		return fmt.Errorf("re-creation of pipe %s needs a deleted pipe of that name", p.def.Name)
+	}
+	r.syncDst()
+	dst, err := readDst(r.srv, prev.def.Name)
+	if err != nil {
+		return err
+	}
+	if prev.postDel && len(dst) != prev.dstAtDel {
+		r.fail("pipe-copied-after-delete", fmt.Sprintf("pipe %s: destination grew from %d to %d events after DELETE PIPE", prev.def.Name, prev.dstAtDel, len(dst)))
+	}
+	prev.frozen = r.attribute(prev, dst)
+	prev.superseded = true
+	p.prev = prev
+	for s := range prev.frozen {
+		p.base[s] = len(prev.frozen[s])
+	}
+	p.nontriv = true
+	return nil
+}
+
+// copiedEarlier: got = (events of the source written before the pipe was created) ++ want
+func copiedEarlier(got, want []DEv, tg [][2]string, earlier []Ev) bool {
+	n := len(got) - len(want)
+	if n <= 0 || !sameDEvs(got[n:], want) {
+		return false
+	}
+	old := map[string]bool{}
+	for _, e := range earlier {
+		old[key(transform(tg, e))] = true
+	}
+	for _, e := range got[:n] {
+		if !old[key(e)] {
+			return false
+		}
+	}
+	return true
 }
 
 // notificatorAtLock: is the notificatior goroutine of the pipe service at address svc inside onWriteEvent (where the
@@ -1134,27 +1343,31 @@ func (r *runner) finish() ([]Case, error) {
 		if !p.created {
 			continue
 		}
-		dst, err := readDst(r.srv, p.def.Name)
-		if err != nil {
-			return nil, err
+		var all [][]DEv
+		if p.superseded {
+			// a later pipe of the same name writes to the same destination: this one's observation ended at the re-creation
+			all = p.frozen
+		} else {
+			dst, err := readDst(r.srv, p.def.Name)
+			if err != nil {
+				return nil, err
+			}
+			all = r.attribute(p, dst)
+			if p.deleted && p.postDel && len(dst) != p.dstAtDel {
+				r.fail("pipe-copied-after-delete", fmt.Sprintf("pipe %s: destination grew from %d to %d events after DELETE PIPE", p.def.Name, p.dstAtDel, len(dst)))
+			}
 		}
-		// attribute destination events to sources by their provenance suffix (every source has a unique sid tag)
+		// what the destination gained since this pipe was created (a re-created pipe finds the events of its predecessors)
 		per := make([][]DEv, len(sc.Sources))
-		for _, e := range dst {
-			found := -1
-			for s, tg := range sc.Sources {
-				if hasSuffix(e.Flds, tg) {
-					found = s
-				}
+		for s := range all {
+			b := p.base[s]
+			if p.prev != nil && (len(all[s]) < b || !sameDEvs(all[s][:b], p.prev.frozen[s])) {
+				r.fail("pipe-old-epoch-rewritten", fmt.Sprintf("pipe %s, source %s: the %d events the destination held when the pipe was created again are not a prefix of what it holds now: %v", p.def.Name, tagLine(sc.Sources[s]), b, brief(all[s])))
 			}
-			if found < 0 {
-				r.fail("pipe-unattributed-event", fmt.Sprintf("pipe %s: destination event %v carries no source's tags", p.def.Name, e))
-				continue
+			if b > len(all[s]) {
+				b = len(all[s])
 			}
-			per[found] = append(per[found], e)
-		}
-		if p.deleted && p.postDel && len(dst) != p.dstAtDel {
-			r.fail("pipe-copied-after-delete", fmt.Sprintf("pipe %s: destination grew from %d to %d events after DELETE PIPE", p.def.Name, p.dstAtDel, len(dst)))
+			per[s] = all[s][b:]
 		}
 		for s, tg := range sc.Sources {
 			// ---- oracle: the property on the observations
@@ -1177,6 +1390,8 @@ func (r *runner) finish() ([]Case, error) {
 					}
 					if p.def.FKind != "" && sameDEvs(got, wantNoF) {
 						cls = "pipe-filter-not-applied"
+					} else if p.prev != nil && copiedEarlier(got, want, tg, r.written[s][:p.pre[s]]) {
+						cls = "pipe-recreated-copied-earlier-events"
 					} else if len(hist) > 0 && sameDEvs(got, append(hist, want...)) {
 						cls = "pipe-copied-unflushed-history"
 					} else if st := p.stale[s]; len(st) > 0 && sameDEvs(got, append(transformAll(tg, st), want...)) {
@@ -1211,6 +1426,9 @@ func (r *runner) finish() ([]Case, error) {
 				ops = nil
 			}
 			coq := GApp("KSrc", gPairs(tg), GNat(p.preFl[s]), gEvents(p, r.written[s][p.preFl[s]:p.pre[s]]), GList(ops), GList(obs))
+			if q := p.prev; q != nil && p.def.Match[s] && q.def.Match[s] && q.stale[s] == nil && p.preFl[s] == p.pre[s] {
+				coq = GApp("KRe", gPairs(tg), GNat(q.preFl[s]), gEvents(q, r.written[s][q.preFl[s]:q.pre[s]]), GList(q.ops[s]), GNat(p.pre[s]), GList(ops), GList(obs))
+			}
 			if p.stale[s] != nil && p.def.Match[s] {
 				coq = GApp("KStale", gPairs(tg), GNat(p.pre[s]-len(p.stale[s])), gEvents(p, p.stale[s]), GList(ops), GList(obs))
 			}
@@ -1319,11 +1537,42 @@ func (g *gen) batch(src, n int) Batch {
 var pipeSeq int
 var pipeMu sync.Mutex
 
-func pipeName() string {
+func pipeName() string { return pipeNameOf("") }
+
+// pipeNameOf: a fresh pipe name of the given shape. The grammar takes [a-zA-Z_][a-zA-Z0-9_./:-]* as a pipe name; the
+// file that keeps a pipe's positions is named after the pipe with '_', '/', ':' (and characters a name cannot hold)
+// escaped (fileutil.EscapeToFileName)
+func pipeNameOf(kind string) string {
 	pipeMu.Lock()
 	defer pipeMu.Unlock()
 	pipeSeq++
-	return fmt.Sprintf("p%d", pipeSeq)
+	n := pipeSeq
+	switch kind {
+	case "us":
+		return fmt.Sprintf("app_errors%d", n)
+	case "lead":
+		return fmt.Sprintf("_p%d", n)
+	case "mix":
+		return fmt.Sprintf("Err_Log.v%d-x", n)
+	case "colon":
+		return fmt.Sprintf("ns:p%d", n)
+	case "slash":
+		return fmt.Sprintf("team/p%d", n)
+	case "dots":
+		return fmt.Sprintf("P.%d-a", n)
+	}
+	return fmt.Sprintf("p%d", n)
+}
+
+// renamePipes gives the pipes of a scenario fresh names of their shapes; the epochs of one pipe share its name
+func renamePipes(sc *Scenario) {
+	for i := range sc.Pipes {
+		if e := sc.Pipes[i].Epoch; e > 0 && e <= i {
+			sc.Pipes[i].Name = sc.Pipes[e-1].Name
+		} else {
+			sc.Pipes[i].Name = pipeNameOf(sc.Pipes[i].NameKind)
+		}
+	}
 }
 
 func mkSources(r *Rng, n int) [][][2]string {
@@ -1450,6 +1699,162 @@ func genScenario(r *Rng, stream string) *Scenario {
 			sc.Steps = append(sc.Steps, Step{Kind: "delete", Pipe: 0}, Step{Kind: "create", Pipe: len(sc.Pipes) - 1})
 		}
 		sc.Steps = append(sc.Steps, wave(false))
+	}
+	return sc
+}
+
+// genWave: a wave for the streams below. partial (may be nil) says whether the first request to source s in this wave
+// is one that the server refuses half-way
+func genWave(g *gen, r *Rng, ns int, multi, first bool, partial func(s int) bool) Step {
+	st := Step{Kind: "wave"}
+	one := true
+	for s := 0; s < ns; s++ {
+		if !r.Chance(3, 4) && !(first && s == 0) {
+			continue
+		}
+		nb := 1
+		if multi {
+			nb = r.PickInt(1, 1, 2, 3)
+		}
+		if nb > 1 {
+			one = false
+		}
+		for k := 0; k < nb; k++ {
+			b := g.batch(s, r.PickInt(1, 1, 2, 3, 5, 8))
+			if k == 0 && partial != nil && partial(s) {
+				b.Refused = r.Range(1, 3)
+			}
+			st.Batches = append(st.Batches, b)
+		}
+	}
+	if len(st.Batches) == 0 {
+		st.Batches = append(st.Batches, g.batch(0, 2))
+	}
+	st.FlushFirst = one && r.Chance(1, 2)
+	return st
+}
+
+// DELETE PIPE and CREATE PIPE again under the same name (names with characters the state-file name escapes), events
+// written before, between and after; in a third of the scenarios some requests are refused half-way
+func genRecreate(r *Rng) *Scenario {
+	g := &gen{r: r, ts: int64(r.Range(0, 1000))}
+	sc := &Scenario{Stream: "recreate", Chunk: 1 << 20}
+	withPartial := r.Chance(1, 3)
+	if withPartial {
+		sc.MaxRec = 400
+	} else if r.Chance(1, 3) {
+		sc.Chunk = int64(r.PickInt(500, 2000))
+	}
+	small := sc.Chunk < 100000
+	ns := r.Range(1, 3)
+	sc.Sources = mkSources(r, ns)
+	fkind := ""
+	if r.Chance(1, 5) {
+		fkind = "K"
+	}
+	p0 := mkPipe(r, sc.Sources, fkind)
+	p0.NameKind = r.PickStr("us", "us", "us", "lead", "mix", "colon", "slash", "dots", "")
+	p0.Name = pipeNameOf(p0.NameKind)
+	sc.Pipes = []PipeDef{p0}
+	cur := 0
+	var part func(s int) bool
+	if withPartial {
+		part = func(s int) bool { return r.Chance(1, 2) }
+	}
+	if r.Chance(1, 2) {
+		sc.Steps = append(sc.Steps, genWave(g, r, ns, !small, true, nil))
+	}
+	if r.Chance(1, 2) {
+		// a pipe with an ordinary name that lives through it all
+		ctl := PipeDef{Name: pipeName(), Match: make([]bool, ns)}
+		for i := range ctl.Match {
+			ctl.Match[i] = true
+		}
+		sc.Pipes = append(sc.Pipes, ctl)
+		sc.Steps = append(sc.Steps, Step{Kind: "create", Pipe: 1})
+	}
+	sc.Steps = append(sc.Steps, Step{Kind: "create", Pipe: 0})
+	for w := 0; w < r.Range(1, 2); w++ {
+		sc.Steps = append(sc.Steps, genWave(g, r, ns, !small, w == 0, part))
+	}
+	cycles := r.PickInt(1, 1, 2)
+	for c := 0; c < cycles; c++ {
+		sc.Steps = append(sc.Steps, Step{Kind: "delete", Pipe: cur})
+		restartAt := -1
+		nb := r.PickInt(0, 1, 1, 2)
+		if r.Chance(1, 4) {
+			restartAt = r.Range(0, nb)
+		}
+		for w := 0; w <= nb; w++ {
+			if w == restartAt {
+				sc.Steps = append(sc.Steps, Step{Kind: "restart"})
+			}
+			if w < nb {
+				sc.Steps = append(sc.Steps, genWave(g, r, ns, !small, true, part))
+			}
+		}
+		pd := p0
+		pd.Epoch = cur + 1
+		sc.Pipes = append(sc.Pipes, pd)
+		cur = len(sc.Pipes) - 1
+		sc.Steps = append(sc.Steps, Step{Kind: "create", Pipe: cur})
+		for w := 0; w < r.Range(1, 2); w++ {
+			sc.Steps = append(sc.Steps, genWave(g, r, ns, !small, w == 0, part))
+		}
+		if r.Chance(1, 5) {
+			sc.Steps = append(sc.Steps, Step{Kind: "restart"}, genWave(g, r, ns, !small, true, part))
+		}
+	}
+	return sc
+}
+
+// requests refused half-way (a record bigger than MaxRecordSize behind valid events): the stored prefix is copied like
+// any other events; mostly as the FIRST write to a source since the pipe was created
+func genPartial(r *Rng) *Scenario {
+	g := &gen{r: r, ts: int64(r.Range(0, 1000))}
+	sc := &Scenario{Stream: "partial", Chunk: 1 << 20, MaxRec: int64(r.PickInt(300, 400, 600))}
+	ns := r.Range(1, 3)
+	sc.Sources = mkSources(r, ns)
+	fkind := ""
+	if r.Chance(1, 4) {
+		fkind = "K"
+	}
+	sc.Pipes = []PipeDef{mkPipe(r, sc.Sources, fkind)}
+	fresh := make([]bool, ns)
+	part := func(s int) bool {
+		if fresh[s] {
+			return r.Chance(2, 3)
+		}
+		return r.Chance(1, 4)
+	}
+	wave := func(first bool) {
+		st := genWave(g, r, ns, true, first, part)
+		for _, b := range st.Batches {
+			fresh[b.Src] = false
+		}
+		sc.Steps = append(sc.Steps, st)
+	}
+	create := func(i int) {
+		sc.Steps = append(sc.Steps, Step{Kind: "create", Pipe: i})
+		for s := range fresh {
+			fresh[s] = true
+		}
+	}
+	if r.Chance(1, 2) {
+		wave(true)
+	}
+	create(0)
+	nw := r.Range(2, 4)
+	second := -1
+	if r.Chance(1, 3) {
+		sc.Pipes = append(sc.Pipes, mkPipe(r, sc.Sources, fkind))
+		second = r.Range(1, nw-1)
+	}
+	for w := 0; w < nw; w++ {
+		if w == second {
+			create(1)
+		}
+		wave(w == 0)
 	}
 	return sc
 }
@@ -1589,7 +1994,7 @@ func corpus() []*Scenario {
 	return []*Scenario{flt, race}
 }
 
-const rule = "end-to-end scenarios on an in-process server: 1-4 source partitions (unique sid tag), 1-3 pipes over four source-condition shapes, waves of 1-3 batches of 1-13 events per source (chunk size 300-2000 bytes in half of the scenarios so that batches straddle roll-overs), pipe creation before/after existing history, a second pipe created mid-history, DELETE PIPE with a control pipe, clean restart, two first writers with inverted notifications (schedule hook), concurrent writers on known sources, worker idle time-out with a write shortly before it; one case per (pipe, source); non-trivial iff the source matches the pipe and either a notification reached the pipe while it already knew the source (worker charged), or a restart/delete/race/re-arm step was taken; distinct by scenario/pipe/source"
+const rule = "end-to-end scenarios on an in-process server: 1-4 source partitions (unique sid tag), 1-3 pipes over four source-condition shapes, waves of 1-3 batches of 1-13 events per source (chunk size 300-2000 bytes in half of the scenarios so that batches straddle roll-overs), pipe creation before/after existing history, a second pipe created mid-history, DELETE PIPE with a control pipe, clean restart, two first writers with inverted notifications (schedule hook), concurrent writers on known sources, worker idle time-out with a write shortly before it, DELETE PIPE + CREATE PIPE again under the same name (names with '_', '/', ':', '.', '-', upper case; events before, between and after; one case per epoch), requests refused half-way on a server with a small MaxRecordSize (the stored prefix counts as written; mostly the first write to a source since the pipe exists); one case per (pipe epoch, source); non-trivial iff the source matches the pipe and either a notification reached the pipe while it already knew the source (worker charged), or a restart/delete/re-creation/race/re-arm step was taken; distinct by scenario/pipe/source"
 
 // closeFdPool: the journal controller of the range library has no shutdown, so the reader file descriptors pooled by
 // a stopped server stay open for the life of the process (about 25 per scenario; a thorough run starts thousands of
@@ -1649,9 +2054,7 @@ func main() {
 				Parallel(n, 16, func(i int) {
 					sc2 := sc
 					sc2.Pipes = append([]PipeDef{}, sc.Pipes...)
-					for k := range sc2.Pipes {
-						sc2.Pipes[k].Name = pipeName()
-					}
+					renamePipes(&sc2)
 					cases, err := runScenario(&sc2)
 					mu.Lock()
 					defer mu.Unlock()
@@ -1671,9 +2074,7 @@ func main() {
 				return c.Finish(rule)
 			}
 			// pipe names are fresh per run
-			for i := range sc.Pipes {
-				sc.Pipes[i].Name = pipeName()
-			}
+			renamePipes(&sc)
 			cases, err := runScenario(&sc)
 			if err != nil {
 				return err
@@ -1708,6 +2109,12 @@ func main() {
 		}
 		for i := 0; i < c.N(6); i++ {
 			jobs = append(jobs, genStale(c.Rng.Fork()))
+		}
+		for i := 0; i < c.N(14); i++ {
+			jobs = append(jobs, genRecreate(c.Rng.Fork()))
+		}
+		for i := 0; i < c.N(10); i++ {
+			jobs = append(jobs, genPartial(c.Rng.Fork()))
 		}
 		results := make([][]Case, len(jobs))
 		errs := make([]error, len(jobs))
